@@ -183,6 +183,12 @@ func trieMembers(tr *trie.Trie, limit int) ([]string, error) {
 // observeTrie compares every observation of tr with the model.
 func observeTrie(tr *trie.Trie, m *trieModel, alphabet []byte, what string) error {
 	members := m.sorted()
+	// a traversal abandoned after its first item leaves nothing behind for the next one
+	if len(members) >= 2 {
+		if p := catch(func() { tr.ForEach(func([]byte) bool { return false }) }); p != nil {
+			return fmt.Errorf("%s: ForEach stopped after its first item panicked: %v", what, p)
+		}
+	}
 	got, err := trieMembers(tr, len(members)+4)
 	if err != nil {
 		return fmt.Errorf("%s: %v", what, err)
@@ -280,8 +286,24 @@ func observeTrie(tr *trie.Trie, m *trieModel, alphabet []byte, what string) erro
 	return nil
 }
 
-func rebuildTrie(tr *trie.Trie) (*trie.Trie, error) {
-	js, err := json.Marshal(tr)
+func rebuildTrie(tr *trie.Trie, direct bool) (*trie.Trie, error) {
+	var js []byte
+	var err error
+	if !direct {
+		js, err = json.Marshal(tr)
+	} else {
+		// the json.Marshaler method called directly; its result belongs to the caller and is
+		// still the trie's JSON form after another trie has been marshalled
+		js, err = tr.MarshalJSON()
+		if err == nil {
+			other := trie.New()
+			other.Add([]byte("zzzzzzzzzzzzzzzzzzzzzzzzzzzzzzzzzzzzzzzz"))
+			other.Add([]byte("\x00\xff"))
+			if _, oerr := other.MarshalJSON(); oerr != nil {
+				return nil, fmt.Errorf("MarshalJSON of another trie failed: %v", oerr)
+			}
+		}
+	}
 	if err != nil {
 		return nil, fmt.Errorf("json.Marshal(trie) failed: %v", err)
 	}
@@ -394,7 +416,7 @@ func checkC15(c C15Case, o *Obs) error {
 			o.Class("node with 256 children")
 		case "json":
 			desc = "JSON-rebuild"
-			fresh, err := rebuildTrie(tr)
+			fresh, err := rebuildTrie(tr, step%2 == 0)
 			if err != nil {
 				return fmt.Errorf("step %d: %v (history %v)", step, err, hist)
 			}
@@ -415,7 +437,7 @@ func checkC15(c C15Case, o *Obs) error {
 			return err
 		}
 		// A trie rebuilt from the JSON form is indistinguishable.
-		fresh, err := rebuildTrie(tr)
+		fresh, err := rebuildTrie(tr, step%2 == 1)
 		if err != nil {
 			return fmt.Errorf("%s: %v", what, err)
 		}
